@@ -586,6 +586,9 @@ def c20(run):
     mc_job(run, "MC_Seq", "mc/MC_Seq.tla", "mc/MC_Seq%s.cfg" % ("_thorough" if run.tier == "thorough" else ""),
            "M: the resolver with call stack and per-tag cache, for every config of %d tags (every from function, cyclic and dangling included) and every request order: "
            "validator accepts iff acyclic and no dangling reference; every delivered/cached result is the composition along the chain; termination" % (4 if run.tier == "thorough" else 3))
+    mc_job(run, "MC_SeqFilter", "mc/MC_SeqFilter.tla", "mc/MC_SeqFilter.cfg",
+           "M: the filter operators the plans are built from, against the manual's sentences, for every group list of <= 3 groups x every filter list of <= 3 names (other letter case, duplicates, a missing name): "
+           "`!` keeps exactly the groups not named, once each, in file order; `~` gives exactly the named groups in the order named or an error; together they partition the file")
     res = run_tlc("GEN_Seq", "gen/GEN_Seq.tla", "gen/GEN_Seq_%s.cfg" % run.tier, env=dict(run.known_env(), VERIF_ASCA_BIN=binpath), consumer=[HARNESS, "replay", "C20"], timeout=6000, workers=4)
     run.add_tlc("GEN_Seq", res, "S->I: seeded project configs of 4 tags (chains, forks, cycles, dangling references, ! and ~ filters in mixed case, extra word files, every declaration order) with the plan "
                                 "Seq.tla prescribes; real `asca seq -o -y`, `-t tag`, `conv tag -r` compared with the plan executed through asca::run; invalid configs must exit non-zero in bounded time")
